@@ -132,7 +132,42 @@ func hasStringLeaf(shape []pField) bool {
 	return false
 }
 
+// masks of the bit-or rules (ids of their own: see OrId in spec/ProtoRewrite.tla)
+var orMasks = []uint64{16, 0x40000001, 5, 1<<20 | 1, 0x7f00, 1 << 30}
+
+func (l lift) mask(kind string, m int) uint64 {
+	if m == 0 {
+		return 0
+	}
+	x := orMasks[l.idx(m, len(orMasks))]
+	if l.salt%2 == 1 && (kind == "int" || kind == "i64" || kind == "s64" || kind == "uint" || kind == "u64" || kind == "x64") {
+		x |= 1 << 40
+	}
+	return x
+}
+
+func orValue(v any, mask uint64) any {
+	switch x := v.(type) {
+	case int:
+		return x | int(mask)
+	case int32:
+		return x | int32(mask)
+	case int64:
+		return x | int64(mask)
+	case uint:
+		return x | uint(mask)
+	case uint32:
+		return x | uint32(mask)
+	case uint64:
+		return x | mask
+	}
+	panic("orValue: not an integer")
+}
+
 func (l lift) scalar(kind string, id int) any {
+	if id >= 100 { // value (id-100)/10 or-ed with mask (id-100)%10
+		return orValue(l.scalar(kind, (id-100)/10), l.mask(kind, (id-100)%10))
+	}
 	switch kind {
 	case "bool":
 		return id != 0
